@@ -155,7 +155,7 @@ func cliOutputs(cs Case, name string) []string {
 
 // runTool runs the tool on the batch files order (indices into cs.Batch) in
 // a fresh directory that holds all sources of the batch.
-func runTool(bin string, cs Case, sources []string, root string, order []int) (cliRun, error) {
+func runTool(bin string, cs Case, sources []string, root string, order []int, stale ...bool) (cliRun, error) {
 	dir, err := os.MkdirTemp(scratchBase(), "c08-cli-")
 	if err != nil {
 		return cliRun{}, err
@@ -164,6 +164,18 @@ func runTool(bin string, cs Case, sources []string, root string, order []int) (c
 	for i, f := range cs.Batch {
 		if err := os.WriteFile(filepath.Join(dir, f.Name), []byte(sources[i]), 0o644); err != nil {
 			return cliRun{}, err
+		}
+	}
+	if len(stale) > 0 && stale[0] {
+		// The outputs of an earlier, larger compilation are still in the
+		// directory.
+		junk := bytes.Repeat([]byte("stale output of an earlier compilation\n"), 8192)
+		for _, i := range order {
+			for _, name := range cliOutputs(cs, cs.Batch[i].Name) {
+				if err := os.WriteFile(filepath.Join(dir, name), junk, 0o644); err != nil {
+					return cliRun{}, err
+				}
+			}
 		}
 	}
 	args := cliArgs(cs, root)
@@ -372,7 +384,7 @@ func runCli(cs Case) ev.Outcome {
 		compare(r, order, "batch")
 	}
 	// The last program once more, alone.
-	r, err := runTool(bin, cs, sources, root, []int{n - 1})
+	r, err := runTool(bin, cs, sources, root, []int{n - 1}, cs.Stale)
 	if err != nil {
 		return cliSkip(err)
 	}
@@ -657,6 +669,7 @@ func genCli(t *rapid.T) Case {
 	if !cs.NoCirc && rapid.IntRange(0, 5).Draw(t, "format") == 5 {
 		cs.Format = "bristol"
 	}
+	cs.Stale = rapid.Bool().Draw(t, "stale")
 	return cs
 }
 
